@@ -32,6 +32,11 @@ COLLISIONS = [
     ("broken-links-across-files", ["module A\n/// {@link B::S} and {@link Nope}\nstruct D {}\n", "module B\n/// @see A::D\nstruct S {}\n"]),
     ("cycle-across-files", ["module A\nstruct S { t: B::T }\n", "module B\nstruct T { s: A::S? }\n"]),
     ("alias-loop-across-files", ["module A\ntypealias X = B::Y\n", "module B\ntypealias Y = A::X\n", "module C\nstruct U { x: A::X }\n"]),
+    # preprocessor symbols must not travel between files
+    ("preprocessor-define-elsewhere", ["#define X\nmodule A\nstruct S {}\n", "module B\n#if X\nstruct Hidden {}\n#endif\nstruct T {}\n", "module C\nstruct U { t: B::T }\n"]),
+    ("preprocessor-define-guards-error", ["#define X\nmodule A\nstruct S {}\n", "module B\n#if X\nstruct Bad { f: NoSuch }\n#endif\n", "module C\ncustom K\n"]),
+    ("preprocessor-undef-elsewhere", ["#define Y\n#undef Y\nmodule A\nstruct S {}\n", "#define Y\nmodule B\n#if Y\nstruct Seen {}\n#endif\n", "module C\n#if !Y\nstruct NotY {}\n#endif\n"]),
+    ("preprocessor-define-needed-by-reference", ["module A\n#if Z\nstruct Bad { f: NoSuch }\n#else\nstruct Good {}\n#endif\n", "#define Z\nmodule B\nstruct S {}\n"]),
     ("operation-vs-parameter-scope", ["module A\ninterface I { op(op: bool) -> (op: bool, r: bool) }\n", "module A\n/// {@link I::op}\nstruct L {}\n"]),
 ]
 
@@ -50,7 +55,7 @@ def run_once(ctx, case_dir, names, order, split, schema, gen_path):
     argv = []
     for i in order:
         argv += [names[i]] if split[i] else ["-R", names[i]]
-    argv += ["--diagnostic-format", "json", "-G", gen_path]
+    argv += ["--diagnostic-format", "json", "-G", gen_path + ",k1=v1,k2=v2,zeta=é,alpha,k5=5,k6=six"]
     res = ctx.run_slicec(argv, cwd=case_dir, env={"FAKEGEN_LOG": log})
     cap = [x for x in os.listdir(log) if x.endswith(".stdin")]
     data = None
